@@ -57,7 +57,8 @@ union of its windows: the clock must not advance (and the run must not end) whil
 non-empty window meets the stretch — suspended once a programmatic open()/close() (`copen` / `cclose` lines) has happened.
 
 Constructor options varied: pooled `downstream` set / None (`nosink`), `queue_capacity` 0 (unlimited) .. 3, `cycle_time` 0;
-conveyor `capacity` 0 (unlimited) .. 3, `transit_time` 0; gate `queue_capacity` 0 .. 3, empty / zero-length / coinciding
+conveyor `capacity` 0 (unlimited) .. 3, `transit_time` 0 (an offer answered without a transport process is logged `pass` = handed over
+in that instant, or `lost`; the judge demands in_transit + transported + rejected = offered after every delivery); gate `queue_capacity` 0 .. 3, empty / zero-length / coinciding
 schedules, `initially_open`, and the public `open()` / `close()` called by a harness controller (`ctl`); batch size 1 .. 4,
 `process_time` 0, `timeout_s` 0; reneging `reneged_target` set / None (`rtarget`), `default_patience_s` inf / 0 / .., item
 patience 0, queue capacity inf / 0 / .., service time 0.
@@ -230,7 +231,8 @@ def run_impl(case):
             out = orig(ev)
             if isinstance(out, Generator):
                 return traced(out, f"offer {tag}", "start", f"fin {tag}")
-            emit(f"offer {tag}", "rej" if c.items_rejected > r0 else "lost")
+            # no transport process: refused and counted, handed over in this very instant, or dropped
+            emit(f"offer {tag}", "rej" if c.items_rejected > r0 else "pass" if out else "lost")
             return out
 
         c.handle_event = on
@@ -757,6 +759,7 @@ THEOREMS: list[str] = [_NS + n for n in [
     "gate_repaired_open_at_covered_instant",   # repaired model: at an instant inside some window the gate is open after that instant's schedule events in ANY order
     "gate_current_touching_unsorted_closes",   # witness: current code shut for a whole window when touching windows are listed out of order
     "judge_sound_gate_window_strand",          # judge accepts a clock advance over waiting items => no non-empty window meets that stretch
+    "judge_sound_conveyor_conservation",       # judge accepts a conveyor observation => in_transit + transported + rejected = offered so far
 ]]
 PARTIAL_THEOREMS = {
     _NS + "judge_sound_in_service": "soundness of the indus judge is proved for two clauses (concurrency limit, completed at most once); "
